@@ -379,21 +379,95 @@ def write_overlay():
     return path
 
 
-def build_go(harness_dir, race=False, timeout=900):
-    """go test -c of /repo's package with the harness overlaid. Returns (ok, binary, log)."""
+def build_go(harness_dir, race=False, timeout=900, cover=False):
+    """go test -c of /repo's package with the harness overlaid. Returns (ok, binary, log).
+    cover: instrument every package of /repo for statement coverage (thorough tier: which parts of
+    the code did the correspondence runs of this property execute)."""
     ov = write_overlay()
     pkg = HARNESS_PKGS[harness_dir]
-    binp = os.path.join(BUILD, "%s%s.test" % (harness_dir, "_race" if race else ""))
+    binp = os.path.join(BUILD, "%s%s.test" % (harness_dir, "_race" if race else "_cover" if cover else ""))
     env = dict(GOENV)
     cmd = ["go", "test", "-c", "-overlay", ov, "-tags", "verif", "-vet=off", "-o", binp]
     if race:
         cmd.insert(3, "-race")
         env["CGO_ENABLED"] = "1"
+    elif cover:
+        # go's cover tool does not read files added through -overlay: build in a scratch copy of the
+        # working tree of /repo (outside /repo and /verif, removed at once) with the harness files copied in
+        scratch = tempfile.mkdtemp(prefix="verif_coverrepo_")
+        try:
+            sh(["rsync", "-a", "--exclude", ".git", REPO + "/", scratch + "/"], check=True)
+            for d, p2 in HARNESS_PKGS.items():
+                hd = os.path.join(VERIF, "harness", d)
+                for f in sorted(os.listdir(hd)) if os.path.isdir(hd) else []:
+                    if f.endswith(".go"):
+                        shutil.copy(os.path.join(hd, f), os.path.join(scratch, p2, f))
+            cmd = ["go", "test", "-c", "-cover", "-covermode=set", "-coverpkg=github.com/mk6i/mkdb/...",
+                   "-tags", "verif", "-vet=off", "-o", binp, "./" + pkg]
+            rc, out = sh(cmd, cwd=scratch, env=env, timeout=timeout)
+            return rc == 0, binp, out
+        finally:
+            shutil.rmtree(scratch, ignore_errors=True)
     cmd.append("./" + pkg)
     with open(os.path.join(BUILD, "go_%s.lock" % harness_dir), "w") as lk:
         fcntl.flock(lk, fcntl.LOCK_EX)
         rc, out = sh(cmd, cwd=REPO, env=env, timeout=timeout)
     return rc == 0, binp, out
+
+
+import itertools
+_cover_seq = itertools.count()
+
+
+def coverage_summary(cdir, anchor_files):
+    """merge the coverage profiles of a run (mode set) and summarise: statements executed per /repo file,
+    and the functions of the property's anchor files no statement of which was executed."""
+    blocks = {}
+    for fn in os.listdir(cdir) if os.path.isdir(cdir) else []:
+        with open(os.path.join(cdir, fn)) as f:
+            for line in f:
+                if line.startswith("mode:") or not line.strip():
+                    continue
+                m = re.match(r"(.+):(\d+)\.(\d+),(\d+)\.(\d+) (\d+) (\d+)$", line.strip())
+                if not m:
+                    continue
+                key = (m.group(1), int(m.group(2)), int(m.group(3)), int(m.group(4)), int(m.group(5)), int(m.group(6)))
+                blocks[key] = blocks.get(key, 0) + int(m.group(7))
+    if not blocks:
+        return None
+    per_file = {}
+    for (f, l1, c1, l2, c2, n), cnt in blocks.items():
+        rel = f.split("github.com/mk6i/mkdb/")[-1]
+        if "zz_verif" in rel:
+            continue
+        t = per_file.setdefault(rel, [0, 0])
+        t[1] += n
+        if cnt:
+            t[0] += n
+    # functions without any executed statement, in the anchor files
+    untouched = []
+    for rel in sorted(per_file):
+        if rel not in anchor_files:
+            continue
+        path = os.path.join(REPO, rel)
+        try:
+            src = open(path).read().split("\n")
+        except OSError:
+            continue
+        funcs = [(i + 1, re.match(r"func (\([^)]*\) )?([A-Za-z0-9_]+)", l).group(2)) for i, l in enumerate(src) if l.startswith("func ")]
+        for k, (ln, name) in enumerate(funcs):
+            end = funcs[k + 1][0] - 1 if k + 1 < len(funcs) else len(src)
+            tot = hit = 0
+            for (f, l1, c1, l2, c2, n), cnt in blocks.items():
+                if f.endswith("/" + rel) or f.endswith(rel):
+                    if ln <= l1 <= end:
+                        tot += n
+                        hit += n if cnt else 0
+            if tot and not hit:
+                untouched.append("%s:%s" % (rel, name))
+    return {"statements_executed_per_file": {k: "%d/%d" % (v[0], v[1]) for k, v in sorted(per_file.items()) if v[0]},
+            "anchor_files": {k: "%d/%d" % (per_file[k][0], per_file[k][1]) for k in sorted(per_file) if k in anchor_files},
+            "anchor_functions_never_executed": untouched}
 
 
 def run_driver(binp, mode, inputs, timeout=1200, extra_env=None, workdir=None):
@@ -409,9 +483,13 @@ def run_driver(binp, mode, inputs, timeout=1200, extra_env=None, workdir=None):
         env = dict(os.environ, VERIF_MODE=mode, VERIF_IN=inp, VERIF_OUT=outp)
         if extra_env:
             env.update(extra_env)
+        args = [binp, "-test.run", "^TestVerifDriver$", "-test.timeout", "%ds" % timeout]
+        cdir = os.environ.get("VERIF_COVERDIR")
+        if cdir and binp.endswith("_cover.test"):
+            os.makedirs(cdir, exist_ok=True)
+            args.append("-test.coverprofile=" + os.path.join(cdir, "p%d_%d.out" % (os.getpid(), next(_cover_seq))))
         try:
-            rc, out = sh([binp, "-test.run", "^TestVerifDriver$", "-test.timeout", "%ds" % timeout],
-                         cwd=wd, env=env, timeout=timeout + 30)
+            rc, out = sh(args, cwd=wd, env=env, timeout=timeout + 30)
         except subprocess.TimeoutExpired:
             return False, [], "driver timeout"
         outs = []
